@@ -529,6 +529,8 @@ class Known:
 
 
 def owner_props(job, desc):
+    if getattr(job, "own_all", False):
+        return [job.prop] + re.findall(r"C\d+", (re.match(r"^((\[C\d+\])+)", desc) or re.match("", "")).group(0))
     m = re.match(r"^((\[C\d+\])+)", desc)
     if m:
         return re.findall(r"C\d+", m.group(1))
